@@ -1,6 +1,236 @@
-import Netpol.Model.Engine
-import Netpol.Spec.K8s
+import Netpol.Proofs.Structure
+
+/-! C05: the report is a well-formed relation.
+
+Part A: `Engine.partition blocks` (the IP peers of the report, model of
+`getDisjointIPBlocks`) is a partition of the IPv4 space `0 .. ipMax` that refines every input
+block. Part B: the structure of the peers × peers loop `Engine.connsBetweenPeers` and of the peers
+list `Engine.peersList`. Proofs are in `Netpol.Proofs.Structure`. -/
 namespace Netpol.Properties.C05
-open Netpol
+open Netpol Netpol.Engine Netpol.Structure
+
+/-! ### A. the IP partition -/
+
+/-- 1. the partition is a list of non-empty ranges, sorted, pairwise disjoint, and contiguous:
+each range starts right after the previous one ends -/
+theorem partition_sorted_disjoint (blocks : List Iv) :
+    (∀ r ∈ partition blocks, r.lo ≤ r.hi) ∧
+    (partition blocks).Pairwise (fun r r' => r.hi < r'.lo) ∧
+    (∀ (i : Nat) (h : i + 1 < (partition blocks).length),
+      (partition blocks)[i + 1].lo = (partition blocks)[i].hi + 1) :=
+  ⟨fun r hr => (partition_wf blocks r hr).1, partition_pairwise blocks,
+    contig_getElem (partition_contig blocks)⟩
+
+/-- all ranges lie inside the address space -/
+theorem partition_in_space (blocks : List Iv) :
+    ∀ r ∈ partition blocks, 0 ≤ r.lo ∧ r.hi ≤ ipMax :=
+  fun r hr => (partition_wf blocks r hr).2
+
+/-- 2. the first range starts at 0 and the last one ends at `ipMax`. No hypothesis on the blocks
+is needed: the model adds the points 0 and `ipMax + 1` itself and drops what lies outside. -/
+theorem partition_covers (blocks : List Iv) :
+    (∃ r t, partition blocks = r :: t ∧ r.lo = 0) ∧
+    (∃ t r, partition blocks = t ++ [r] ∧ r.hi = ipMax) :=
+  ⟨partition_head blocks, partition_last blocks⟩
+
+/-- every address belongs to exactly one IP peer -/
+theorem partition_unique_owner (blocks : List Iv) :
+    ∀ a : Int, 0 ≤ a → a ≤ ipMax → ∃ r, (r ∈ partition blocks ∧ r.lo ≤ a ∧ a ≤ r.hi) ∧
+      ∀ r', (r' ∈ partition blocks ∧ r'.lo ≤ a ∧ a ≤ r'.hi) → r' = r := by
+  intro a h0 h1
+  obtain ⟨r, hr, hx⟩ := partition_owner_exists blocks h0 h1
+  exact ⟨r, ⟨hr, hx⟩, fun r' ⟨hr', hx'⟩ => partition_owner_unique blocks hr' hr hx' hx⟩
+
+/-- 3. no block boundary lies strictly inside a range of the partition -/
+theorem partition_refines_blocks (blocks : List Iv) :
+    ∀ r ∈ partition blocks, ∀ b ∈ blocks,
+      ¬ (r.lo < b.lo ∧ b.lo ≤ r.hi) ∧ ¬ (r.lo < b.hi + 1 ∧ b.hi + 1 ≤ r.hi) :=
+  fun _ hr _ hb => partition_refines blocks hr hb
+
+/-- hence a block contains a whole range or nothing of it: membership in any input block is
+constant on a reported IP range -/
+theorem partition_uniform (blocks : List Iv) :
+    ∀ r ∈ partition blocks, ∀ b ∈ blocks, ∀ x y, r.mem x → r.mem y → (b.mem x ↔ b.mem y) := by
+  intro r hr b hb x y hx hy
+  have := partition_refines blocks hr hb
+  unfold Iv.mem at *
+  omega
+
+/-- the ranges are distinct -/
+theorem partition_nodup (blocks : List Iv) : (partition blocks).Nodup :=
+  Structure.partition_nodup blocks
+
+/-! ### B. the loop -/
+
+variable {e : Engine} {peers : List LPeer} {focus : String} {entries : List Entry}
+
+/-- the loop is the ordered concatenation, over all (src, dst) pairs, of `pairEntry` (nothing or
+one entry per pair), or the first error -/
+theorem connsBetweenPeers_eq_collect (e : Engine) (peers : List LPeer) (focus : String) :
+    e.connsBetweenPeers peers focus =
+      collect (fun s => collect (fun d => pairEntry e focus s d) peers) peers :=
+  connsBetweenPeers_eq e peers focus
+
+/-- 4a. no entry between two IP ranges -/
+theorem no_ip_ip_pair (h : e.connsBetweenPeers peers focus = .ok entries) :
+    ∀ x ∈ entries, ¬ (x.src.isIP = true ∧ x.dst.isIP = true) := by
+  refine entries_forall h _ ?_
+  intro s _ d _ xs hxs x hx
+  rcases pairEntry_ok hxs with rfl | ⟨c, rfl, h1, _⟩
+  · cases hx
+  · rw [List.mem_singleton] at hx; subst hx; exact h1
+
+/-- 4b. no entry from a peer to itself -/
+theorem no_self_pair (h : e.connsBetweenPeers peers focus = .ok entries) :
+    ∀ x ∈ entries, x.src.str ≠ x.dst.str := by
+  refine entries_forall h _ ?_
+  intro s _ d _ xs hxs x hx
+  rcases pairEntry_ok hxs with rfl | ⟨c, rfl, _, h2, _⟩
+  · cases hx
+  · rw [List.mem_singleton] at hx; subst hx; exact h2
+
+/-- 4c. no entry with an empty connection set -/
+theorem no_empty_conn (h : e.connsBetweenPeers peers focus = .ok entries) :
+    ∀ x ∈ entries, x.conn.isEmpty = false := by
+  refine entries_forall h _ ?_
+  intro s _ d _ xs hxs x hx
+  rcases pairEntry_ok hxs with rfl | ⟨c, rfl, _, _, _, h4⟩
+  · cases hx
+  · rw [List.mem_singleton] at hx; subst hx; exact h4
+
+/-- 4d. both ends of an entry are peers of the list -/
+theorem entries_from_peers (h : e.connsBetweenPeers peers focus = .ok entries) :
+    ∀ x ∈ entries, x.src ∈ peers ∧ x.dst ∈ peers := by
+  rw [connsBetweenPeers_eq] at h
+  intro x hx
+  obtain ⟨s, hs, ys, hys, hxy⟩ := collect_mem h hx
+  obtain ⟨d, hd, xs, hxs, hxx⟩ := collect_mem hys hxy
+  rcases pairEntry_ok hxs with rfl | ⟨c, rfl, _⟩
+  · cases hxx
+  · rw [List.mem_singleton] at hxx; subst hxx; exact ⟨hs, hd⟩
+
+/-- the connection set of an entry is what `peerConns` computes for its two ends -/
+theorem entry_conn (h : e.connsBetweenPeers peers focus = .ok entries) :
+    ∀ x ∈ entries, ∃ ks kd, e.toKPeer x.src = .ok ks ∧ e.toKPeer x.dst = .ok kd ∧
+      e.peerConns ks kd = .ok x.conn := by
+  refine entries_forall h _ ?_
+  intro s _ d _ xs hxs x hx
+  unfold pairEntry at hxs
+  split at hxs
+  · cases Except.ok.inj hxs; cases hx
+  split at hxs
+  · cases Except.ok.inj hxs; cases hx
+  split at hxs
+  · cases Except.ok.inj hxs; cases hx
+  cases hs : e.toKPeer s with
+  | error err => simp [hs] at hxs
+  | ok ks =>
+    cases hd : e.toKPeer d with
+    | error err => simp [hs, hd] at hxs
+    | ok kd =>
+      cases hc : e.peerConns ks kd with
+      | error err => simp [hs, hd, hc] at hxs
+      | ok c =>
+        simp only [hs, hd, hc] at hxs
+        split at hxs
+        · cases Except.ok.inj hxs; cases hx
+        · cases Except.ok.inj hxs
+          rw [List.mem_singleton] at hx; subst hx
+          exact ⟨ks, kd, hs, hd, hc⟩
+
+/-- 4e. with distinct peer names, no (src, dst) pair is reported twice; the pairs come in the
+order of the peers list (they form a sublist of the product) -/
+theorem pairs_sublist_product (h : e.connsBetweenPeers peers focus = .ok entries) :
+    (entries.map fun x => (x.src.str, x.dst.str)).Sublist
+      (peers.flatMap fun s => peers.map fun d => (s.str, d.str)) :=
+  entries_pairs_sublist h
+
+theorem no_dup_pair (h : e.connsBetweenPeers peers focus = .ok entries)
+    (hn : (peers.map (·.str)).Nodup) : (entries.map fun x => (x.src.str, x.dst.str)).Nodup :=
+  (entries_pairs_sublist h).nodup (nodup_product hn peers hn)
+
+/-! ### the peers list -/
+
+/-- the names of the IP peers are distinct (strict sortedness of the partition; the dotted-quad
+rendering `ipStr` is injective on `0 .. ipMax`) -/
+theorem ipPeers_names_nodup (e : Engine) :
+    (e.disjointIPBlocks.map fun r => (LPeer.ip r).str).Nodup := Structure.ipPeers_names_nodup e
+
+theorem ipStr_injective {n m : Int} (hn : 0 ≤ n ∧ n ≤ ipMax) (hm : 0 ≤ m ∧ m ≤ ipMax)
+    (h : ipStr n = ipStr m) : n = m := ipStr_inj hn hm h
+
+/-- the names of the workload peers are distinct (`podOwnersMap` keys its result by the name) -/
+theorem ownerPeers_names_nodup {owners : List (String × Pod)} (h : e.podOwnersMap = .ok owners) :
+    (owners.map (·.1)).Nodup := Structure.ownerPeers_names_nodup h
+
+/-- a workload name ends with `]` or `}`, an IP range name ends with a digit -/
+theorem workloadName_ne_ipRange (p : Pod) (r : Iv) : workloadName p ≠ (LPeer.ip r).str :=
+  Structure.workloadName_ne_ipRange p r
+
+/-- all peer names of `GetPeersList` are distinct — no hypothesis is needed -/
+theorem peers_names_nodup (h : e.peersList = .ok peers) : (peers.map (·.str)).Nodup :=
+  Structure.peers_names_nodup h
+
+/-- so the report over the peers list never repeats a (src, dst) pair -/
+theorem report_no_dup_pair (hp : e.peersList = .ok peers)
+    (h : e.connsBetweenPeers peers focus = .ok entries) :
+    (entries.map fun x => (x.src.str, x.dst.str)).Nodup :=
+  no_dup_pair h (peers_names_nodup hp)
+
+/-! ### non-vacuity -/
+
+/-- two overlapping blocks and one touching the end of the space -/
+def exBlocks : List Iv := [⟨10, 20⟩, ⟨15, 30⟩, ⟨4294967040, 4294967295⟩]
+
+/-- (`mergeSort` is defined by well-founded recursion, so `decide` cannot evaluate `partition`;
+`simp` with the unfolding equations can) -/
+theorem exBlocks_partition : partition exBlocks =
+    [⟨0, 9⟩, ⟨10, 14⟩, ⟨15, 20⟩, ⟨21, 30⟩, ⟨31, 4294967039⟩, ⟨4294967040, 4294967295⟩] := by
+  simp [partition, exBlocks, List.mergeSort, List.MergeSort.Internal.splitInTwo, ipMax,
+    List.eraseDups_cons]
+
+example : partition [] = [⟨0, ipMax⟩] := by
+  simp [partition, List.mergeSort, List.MergeSort.Internal.splitInTwo, ipMax, List.eraseDups_cons]
+
+/-- points outside the space are dropped, the cover is kept -/
+example : partition [⟨-5, 3⟩, ⟨7, 5000000000⟩] = [⟨0, 3⟩, ⟨4, 6⟩, ⟨7, ipMax⟩] := by
+  simp [partition, List.mergeSort, List.MergeSort.Internal.splitInTwo, ipMax, List.eraseDups_cons]
+
+/-- `partition_uniform` is not vacuous: block `[15,30]` contains the whole range `[21,30]` and
+nothing of `[10,14]` -/
+example : (⟨21, 30⟩ : Iv) ∈ partition exBlocks ∧ (⟨10, 14⟩ : Iv) ∈ partition exBlocks ∧
+    (⟨15, 30⟩ : Iv) ∈ exBlocks ∧ (⟨15, 30⟩ : Iv).mem 21 ∧ (⟨15, 30⟩ : Iv).mem 30 ∧
+    ¬ (⟨15, 30⟩ : Iv).mem 10 ∧ ¬ (⟨15, 30⟩ : Iv).mem 14 := by
+  rw [exBlocks_partition]; decide
+
+def podA : Pod := { ns := "default", name := "a", labels := [("app", "a")], ports := [] }
+def podB : Pod := { ns := "default", name := "b", labels := [("app", "b")], ports := [] }
+
+def exEngine : Engine :=
+  { namespaces := [⟨"default", [(nsNameLabelKey, "default")]⟩], pods := [podA, podB] }
+
+theorem exEngine_blocks : exEngine.disjointIPBlocks = [⟨0, ipMax⟩] := by
+  simp [disjointIPBlocks, exEngine, partition, List.mergeSort, List.MergeSort.Internal.splitInTwo,
+    ipMax, List.eraseDups_cons]
+
+def exPeers : List LPeer :=
+  [.ip ⟨0, ipMax⟩, .wl "default/a[Pod]" podA, .wl "default/b[Pod]" podB]
+
+/-- the peers list of the example: one IP range and two workloads -/
+example : (exEngine.peersList.toOption.map fun l => l.map (·.str)) =
+    some ["0.0.0.0-255.255.255.255", "default/a[Pod]", "default/b[Pod]"] := by
+  unfold peersList; rw [exEngine_blocks]; decide
+
+example : exPeers.map (·.str) =
+    ["0.0.0.0-255.255.255.255", "default/a[Pod]", "default/b[Pod]"] := by decide
+
+/-- its report: 6 entries (3 × 3 minus the diagonal minus ip→ip), in the order of the product -/
+example : ((exEngine.connsBetweenPeers exPeers "").toOption.map fun es =>
+      es.map fun x => (x.src.str, x.dst.str)) =
+    some [("0.0.0.0-255.255.255.255", "default/a[Pod]"),
+      ("0.0.0.0-255.255.255.255", "default/b[Pod]"),
+      ("default/a[Pod]", "0.0.0.0-255.255.255.255"), ("default/a[Pod]", "default/b[Pod]"),
+      ("default/b[Pod]", "0.0.0.0-255.255.255.255"), ("default/b[Pod]", "default/a[Pod]")] := by
+  decide
 
 end Netpol.Properties.C05
